@@ -10,11 +10,7 @@ SEL = "srtla_core::selection::select_connection_idx"
 PRE = "srtla_send::sender::packet_handler::select_pre_registration_connection"
 
 
-def upvar_index(fn, name):
-    for i, n in fn.upvar_names.items():
-        if n == name:
-            return i
-    return None
+from ..roles import upvar_index  # noqa: E402
 
 
 class Source:
